@@ -1,0 +1,23 @@
+//go:build verif
+
+// Contracts for package wallet, read by the verification-condition generator
+// in /verif (govc). Comments only; compiled only with the build tag "verif".
+
+package wallet
+
+// ---------------------------------------------------------------------------
+// Clones (C19)
+// ---------------------------------------------------------------------------
+
+//@ pred sigBytesEq(a Sig, b Sig) = len(a) == len(b) && forall j int :: 0 <= j && j < len(a) ==> a[j] == old(b[j])
+
+//@ func CloneSigs
+//@   ensures (sigs == nil) == (result == nil) && len(result) == len(sigs)
+//@   ensures sigs != nil ==> fresh(arr(result)) && off(result) == 0
+//@   ensures forall i int :: 0 <= i && i < len(sigs) ==> (sigs[i] == nil) == (result[i] == nil) && (sigs[i] != nil ==> fresh(arr(result[i]))) && sigBytesEq(result[i], sigs[i])
+//@   loop 1
+//@     modifies clonedSigs[*]
+//@     invariant len(clonedSigs) == len(sigs) && fresh(arr(clonedSigs)) && off(clonedSigs) == 0
+//@     invariant forall k int :: 0 <= k && k < $i ==> (sigs[k] == nil) == (clonedSigs[k] == nil) && (sigs[k] != nil ==> fresh(arr(clonedSigs[k])))
+//@     invariant forall k int :: 0 <= k && k < $i ==> sigBytesEq(clonedSigs[k], sigs[k])
+//@     invariant forall k int :: $i <= k && k < len(sigs) ==> clonedSigs[k] == nil
